@@ -215,6 +215,31 @@ def _run_stored_twin(name):
         shutil.rmtree(tmp, ignore_errors=True)
 
 
+MECH_KINDS = ['flipcmp', 'flipeq', 'augassign', 'ifelse', 'commute', 'rename', 'crename']     # crename: every local of every C function renamed (tools_mech_c.py)
+
+
+def _run_mech(kind):
+    """Whole-tree mechanical rewrite of every Python file (tools_mech_twin.py; each keeps the repository's test results): all twenty checks must stay at
+    exit 0 with no stale finding."""
+    tmp = tempfile.mkdtemp(prefix='sa_selftest_')
+    try:
+        tree = os.path.join(tmp, 't')
+        cmd = ['/venv/bin/python', os.path.join(VERIF, 'tools_mech_c.py'), tree] if kind == 'crename' else ['/venv/bin/python', os.path.join(VERIF, 'tools_mech_twin.py'), kind, tree]
+        p = subprocess.run(cmd, env=dict(os.environ, VERIF_REPO=REPO),
+                           stdout=subprocess.PIPE, stderr=subprocess.STDOUT, text=True)
+        if p.returncode != 0:
+            return 'MECH-' + kind, False, 'SETUP: ' + p.stdout[-200:]
+        env = dict(os.environ, VERIF_REPO=tree, VERIF_NO_EVIDENCE='1', VERIF_CACHE=os.path.join(tmp, '.cache'))
+        bad = []
+        for pr_ in ['C%02d' % i for i in range(1, 21)]:
+            q = subprocess.run(['/venv/bin/python', '-m', 'sa.check', pr_], cwd=VERIF, env=env, stdout=subprocess.PIPE, stderr=subprocess.STDOUT, text=True)
+            if q.returncode != 0 or 'STALE-FINDING' in q.stdout:
+                bad.append('%s rc=%s %s' % (pr_, q.returncode, [l.strip()[:160] for l in q.stdout.splitlines() if l.startswith('  ') or 'ERROR' in l or 'STALE' in l][:1]))
+        return 'MECH-' + kind, not bad, '; '.join(bad)
+    finally:
+        shutil.rmtree(tmp, ignore_errors=True)
+
+
 def _run_shift(_=None):
     """Whole-tree twin: two comment lines are prepended to every source file (all line numbers move); every check must stay at exit 0 with the
     same known findings (identity never uses positions)."""
@@ -246,7 +271,7 @@ def _run_shift(_=None):
 def main(argv):
     jobs = 16
     ids = [a for a in argv if not a.startswith('-')]
-    seeded_only = '--seeded' in argv or ('--twins' in argv and '--all' not in argv)
+    seeded_only = '--seeded' in argv or (('--twins' in argv or '--mech' in argv) and '--all' not in argv)
     work = [] if seeded_only else [(m, 'mutant') for m in MUTANTS if not ids or m[0] in ids] + [(t, 'twin') for t in TWINS if not ids or t[0] in ids]
     sdir = os.path.join(VERIF, 'seeded')
     seeded = sorted(n for n in os.listdir(sdir) if os.path.isdir(os.path.join(sdir, n)) and (not ids or n in ids)) if os.path.isdir(sdir) and ('--seeded' in argv or '--all' in argv) else []
@@ -258,6 +283,8 @@ def main(argv):
             futs += [ex.submit(_run_stored_twin, n) for n in sorted(os.listdir(tdir)) if os.path.isdir(os.path.join(tdir, n)) and (not ids or n in ids)]
         if '--all' in argv or 'TSHIFT' in ids:
             futs.append(ex.submit(_run_shift))
+        if '--all' in argv or '--mech' in argv:
+            futs += [ex.submit(_run_mech, k) for k in MECH_KINDS if not ids or ('MECH-' + k) in ids]
         for fu in futs:
             res.append(fu.result())
     bad = 0
